@@ -250,7 +250,7 @@ func (r *runner) upstreamContext(up []string) (context.Context, func(), error) {
 	if err != nil {
 		return nil, nil, err
 	}
-	if err := u.Start(context.Background(), componenttest.NewNopHost()); err != nil {
+	if err := startC(func(sc context.Context) error { return u.Start(sc, componenttest.NewNopHost()) }); err != nil {
 		return nil, nil, err
 	}
 	stop := func() { _ = u.Shutdown(context.Background()) }
@@ -356,7 +356,7 @@ func runScript(sc Script) []ev {
 	if err != nil {
 		return fail("setup: " + err.Error())
 	}
-	if err := exp.Start(context.Background(), host); err != nil {
+	if err := startC(func(sc context.Context) error { return exp.Start(sc, host) }); err != nil {
 		return fail("start: " + err.Error())
 	}
 	cancels := map[string]context.CancelFunc{}
@@ -538,4 +538,12 @@ func main() {
 	}
 	w.Flush()
 	out.Close()
+}
+
+// startC calls a component's Start with a context that is cancelled as soon as Start has returned: component.Component
+// says that context "will be cancelled soon", so nothing that has to outlive Start may depend on it.
+func startC(start func(context.Context) error) error {
+	ctx, cancel := context.WithCancel(context.Background())
+	defer cancel()
+	return start(ctx)
 }
